@@ -17,6 +17,7 @@
   unpackName), validated on every generated case by the `dnsreq` harness component.
 -/
 import SA.Proofs.DnsReq
+import SA.Gen.PkgVars
 namespace SA.DnsReq
 open SA.DnsWire SA.WireCodec
 
@@ -165,3 +166,17 @@ end SA.DnsReq
 #print axioms SA.DnsReq.C09_labels_ok
 #print axioms SA.DnsReq.C09_too_long_reported
 #print axioms SA.DnsReq.C09_mtu_formula
+
+namespace SA.PkgState
+/-- **no_hidden_process_state**: the models of this property are functions of their arguments and of the objects they are
+    handed; the packages they model keep no package-level variables besides these (regenerated inventory: error
+    sentinels, tables, compiled patterns, the two session time-outs).  A new package-level variable — a counter, a cache, a
+    scratch buffer, a shared map, a registry — would make later calls depend on earlier ones, or concurrent calls on each
+    other, outside anything a per-call comparison of model and code can see. -/
+theorem C09_no_hidden_process_state :
+    Gen.pkgVarNames_dnscommands = ["BadCodec", "BadCommand", "BadConn", "BadErrors", "BadFrag", "BadIp", "BadLen", "BadServerFull", "BadUser", "BadVersion", "CmdError", "CmdLogin", "CmdPacket", "CmdSetOptions", "CmdTestDownstreamEncoder", "CmdTestDownstreamFragmentSize", "CmdTestMultiQuery", "CmdTestUpstreamEncoder", "CmdVersion", "Commands", "Digits", "ErrTimeout", "LazyModeOk", "NoData", "VersionNotOk", "VersionOk"] ∧
+    Gen.pkgVarNames_dnsutil = ["DotRegex", "DownloadCodecCheck", "ErrCaseSwap", "ErrDeadlineExceeded", "ErrInvalidSequenceNumber", "ErrStreamBroken", "ErrTooLong", "QueryTypeA", "QueryTypeAAAA", "QueryTypeCname", "QueryTypeMx", "QueryTypeNull", "QueryTypePrivate", "QueryTypeSrv", "QueryTypeTxt", "QueryTypesByPriority"] ∧
+    Gen.pkgVarNames_enc = ["Base128Encoding", "Base192Encoding", "Base32Encoding", "Base64Encoding", "Base64uEncoding", "Base85Encoding", "Base91Encoding", "RawEncoding", "cb128Invert", "cbInitialized", "iodineBase32Encoding", "iodineBase64Encoding", "iodineBase64uEncoding", "iodineBase91Encoding"] := by decide
+end SA.PkgState
+
+#print axioms SA.PkgState.C09_no_hidden_process_state
